@@ -254,7 +254,7 @@ def drop_schema_cascade(expression: exp.Expression) -> exp.Expression:
 
 def dateadd_date_cast(expression: exp.Expression) -> exp.Expression:
     """Cast result of DATEADD to DATE if the given expression is a cast to DATE
-       and unit is either DAY, WEEK, MONTH or YEAR to mimic Snowflake's DATEADD
+       and unit is either DAY, WEEK, MONTH, QUARTER or YEAR to mimic Snowflake's DATEADD
        behaviour.
 
     Snowflake;
@@ -274,7 +274,7 @@ def dateadd_date_cast(expression: exp.Expression) -> exp.Expression:
     if not isinstance(expression.unit.this, str):
         return expression
 
-    if (unit := expression.unit.this.upper()) and unit.upper() not in {"DAY", "WEEK", "MONTH", "YEAR"}:
+    if (unit := expression.unit.this.upper()) and unit.upper() not in {"DAY", "WEEK", "MONTH", "QUARTER", "YEAR"}:
         return expression
 
     if not isinstance(expression.this, exp.Cast):
